@@ -104,6 +104,45 @@ func (w *cworld) close() {
 
 const c20ResyncBase = 1000
 
+// spec.resyncPeriodSeconds normally carries the spec id (so that specs with different
+// ids differ); a spec with FastResync asks for the shortest period instead (its
+// handlers then run their own resync ticker) and is told apart by its sync hook URL.
+func c20Resync(s *c20Spec) int32 {
+	if s.FastResync {
+		return 1
+	}
+	return int32(c20ResyncBase + s.ID)
+}
+
+func c20SpecID(resync *int32, hasHooks bool, syncHook func() *v1alpha1.Hook) int {
+	if resync != nil && *resync >= c20ResyncBase {
+		return int(*resync) - c20ResyncBase
+	}
+	if hasHooks {
+		if h := syncHook(); h != nil && h.Webhook != nil && h.Webhook.URL != nil {
+			if _, id, _, _, ok := c20ParseURL(*h.Webhook.URL); ok {
+				return id
+			}
+		}
+	}
+	return 0
+}
+
+// metadata.generation as the API server keeps it (events of older replay files carry none)
+func c20Generation(s *c20Spec, gen int64) int64 {
+	if gen == 0 {
+		return int64(s.ID)
+	}
+	return gen
+}
+
+// c20Stopped: an instance that was stopped, and what is enqueued on its behalf since
+type c20Stopped struct {
+	short string
+	id    int
+	queue *vh.RecQueue
+}
+
 type c20InstInfo struct {
 	ptr    uintptr
 	obj    interface{} // the instance value itself (kept alive by the run: its address is its identity)
@@ -146,6 +185,9 @@ type c20Spec struct {
 	Finalize  *c20HookCfg `json:"finalize,omitempty"`
 	Customize *c20HookCfg `json:"customize,omitempty"`
 	Kind      string      `json:"kind"` // generator's label: valid | <invalid kind>
+	// FastResync: spec.resyncPeriodSeconds = 1, below the shared informers' relist period
+	// (needs a sync hook given by url: the url then carries the spec id)
+	FastResync bool `json:"fastResync,omitempty"`
 }
 
 type c20Event struct {
@@ -155,6 +197,13 @@ type c20Event struct {
 	Crd   string   `json:"crd,omitempty"` // ok | missing | nostatus (composite only)
 	Touch int      `json:"touch,omitempty"`
 	Abs   string   `json:"abs"` // abstract letter: V I N D E C K
+	// Replace: the object was deleted and at once created again under the same name
+	// (new UID, generation 1); the reconciler only ever sees the new object
+	Replace bool `json:"replace,omitempty"`
+	// Gen, UID: metadata.generation (1 on create, +1 on every spec change, unchanged by a
+	// metadata-only update) and metadata.uid of the object the reconciler reads
+	Gen int64  `json:"gen,omitempty"`
+	UID string `json:"uid,omitempty"`
 	// Blocked: the event is issued while a sync of the name's running instance is
 	// held inside its sync hook call (ignored when nothing with a usable sync hook runs)
 	Blocked bool `json:"blocked,omitempty"`
@@ -371,6 +420,8 @@ type c20Run struct {
 	lastPtr  map[string]uintptr
 	incarn   map[string]int
 	keep     []interface{}
+	curInst  map[string]c20InstInfo // short name -> the instance last seen in the controller map
+	stopped  []c20Stopped           // instances that left the controller map, with the queue put in their place
 	sawPanic bool
 }
 
@@ -567,7 +618,7 @@ type c20Obs struct {
 	PanicMsg string            `json:",omitempty"`
 	Insts    map[string][2]int // short name -> (spec id, incarnation)
 	Refs     map[string]int
-	Active   map[string][2]int // "<short>/<id>" -> (hook calls, api writes)
+	Active   map[string][2]int // "<short>/<id>" -> (hook calls [and, for a stopped instance, enqueues on its queue], status writes)
 	WPanics  int
 	// Reconcile returned while a sync of the name's instance was still held in its hook call
 	InFlightReturn bool
@@ -591,10 +642,16 @@ func (r *c20Run) instsObs() map[string][2]int {
 	for _, short := range []string{"a", "b"} {
 		real := c20RealName(short, r.slot)
 		info, ok := cur[real]
+		if prev, had := r.curInst[short]; had && (!ok || prev.ptr != info.ptr) {
+			// the previous instance was stopped: from now on its queue records
+			r.stopped = append(r.stopped, c20Stopped{short: short, id: prev.specID, queue: c20RecordQueue(prev.obj)})
+			delete(r.curInst, short)
+		}
 		if !ok {
 			delete(r.lastPtr, short)
 			continue
 		}
+		r.curInst[short] = info
 		if r.lastPtr[short] != info.ptr {
 			r.incarn[short]++
 			r.lastPtr[short] = info.ptr
@@ -642,7 +699,7 @@ func (r *c20Run) activity(all bool) map[string][2]int {
 // runCase drives one history and returns what was observed.
 func c20RunCase(slot int, c *c20Case) (recs []c20StepRec) {
 	c20Install()
-	run := &c20Run{slot: slot, calls: map[string]int{}, entered: map[string]int{}, syncGate: map[string]chan struct{}{}, syncHeld: map[string]int{}, workers: c.Workers, lastPtr: map[string]uintptr{}, incarn: map[string]int{}}
+	run := &c20Run{slot: slot, calls: map[string]int{}, entered: map[string]int{}, syncGate: map[string]chan struct{}{}, syncHeld: map[string]int{}, workers: c.Workers, lastPtr: map[string]uintptr{}, incarn: map[string]int{}, curInst: map[string]c20InstInfo{}}
 	run.w = c20NewWorld()
 	workers := 1
 	if c.Workers >= 2 {
@@ -682,7 +739,7 @@ func c20RunCase(slot int, c *c20Case) (recs []c20StepRec) {
 		switch ev.Op {
 		case "apply":
 			run.host.setFail(real, false)
-			run.host.apply(real, ev.Name, ev.Spec, ev.Crd, ev.Touch)
+			run.host.apply(real, ev.Name, ev.Spec, ev.Crd, ev.Touch, ev.Gen, ev.UID)
 		case "delete":
 			run.host.setFail(real, false)
 			run.host.remove(real)
@@ -839,7 +896,52 @@ func c20RunCase(slot int, c *c20Case) (recs []c20StepRec) {
 		}
 		recs = append(recs, rec)
 	}
+	// Handlers with a resync period of their own run a ticker; after a stop it must be
+	// gone.  One period later nothing may have been enqueued on behalf of a stopped
+	// instance (its handlers would put the parents on its queue).
+	wait := false
+	for _, st := range run.stopped {
+		if sp := c20SpecOf(c, st.short, st.id); sp != nil && sp.FastResync {
+			wait = true
+		}
+	}
+	if wait && len(recs) > 0 {
+		time.Sleep(1150 * time.Millisecond)
+	}
+	for _, st := range run.stopped {
+		n := 0
+		for _, op := range st.queue.Snapshot() {
+			if strings.HasPrefix(op.Op, "Add") {
+				n++
+			}
+		}
+		if n == 0 || len(recs) == 0 {
+			continue
+		}
+		key := fmt.Sprintf("%s/%d", st.short, st.id)
+		last := &recs[len(recs)-1]
+		for _, o := range []*c20Obs{&last.Obs, c20RelatedObs(last)} {
+			if o == nil {
+				continue
+			}
+			act := map[string][2]int{}
+			for k, v := range o.Active {
+				act[k] = v
+			}
+			e := act[key]
+			e[0] += n
+			act[key] = e
+			o.Active = act
+		}
+	}
 	return recs
+}
+
+func c20RelatedObs(r *c20StepRec) *c20Obs {
+	if r.Related == nil {
+		return nil
+	}
+	return &r.Related.Obs
 }
 
 var c20Settle = 30 * time.Millisecond
@@ -1084,9 +1186,13 @@ func (g *c20Gen) valid(flavor string) *c20Spec {
 		s.Customize = g.validHook("customize")
 		s.Customize.Related = g.rng.Pick([]string{"pods", "namespaces"})
 	}
+	if s.Sync.URL && g.rng.Chance(1, 16) {
+		s.FastResync = true
+	}
 	if g.rng.Chance(1, 24) {
 		// the constructor also accepts a hooks block whose sync hook is missing or empty
 		s.Kind = "nosync"
+		s.FastResync = false
 		s.Customize = nil
 		if g.rng.Bool() {
 			s.Sync = nil
@@ -1172,6 +1278,7 @@ func (g *c20Gen) invalid(flavor, kind string) *c20Spec {
 //
 //	V apply a new startable spec     I apply a new unstartable spec   N no-op update (metadata only)
 //	D delete                         E the read of the object fails
+//	R delete and re-create under the same name with a new startable spec, seen as one event (generation 1 again)
 //	C apply a new startable spec while the parent CRD is missing / has no status subresource (composite)
 //	K no-op update while the CRD is missing / has no status subresource (composite)
 //	G apply a new spec whose parent apiVersion does not parse (composite)
@@ -1191,7 +1298,7 @@ func (g *c20Gen) concretise(flavor, family string, letters []string, names []str
 				l = "N"
 			}
 		}
-		if (l == "N" || l == "K") && cur[n] == nil {
+		if (l == "N" || l == "K" || l == "R") && cur[n] == nil {
 			l = "V"
 		}
 		switch l {
@@ -1203,6 +1310,8 @@ func (g *c20Gen) concretise(flavor, family string, letters []string, names []str
 			ev.Op, ev.Spec = "apply", g.valid(flavor)
 			ev.Spec.Kind = "bad-gv"
 			ev.Spec.Parents[0].APIVersion = "ctl.example.com/v1/x"
+		case "R":
+			ev.Op, ev.Spec, ev.Replace = "apply", g.valid(flavor), true
 		case "N", "K":
 			ev.Op, ev.Spec = "apply", cur[n]
 		case "D":
@@ -1226,8 +1335,42 @@ func (g *c20Gen) concretise(flavor, family string, letters []string, names []str
 		}
 		c.Events = append(c.Events, ev)
 	}
+	c20Stamp(c)
 	c.Features = c20Features(c)
 	return c
+}
+
+// c20Stamp gives every stored object the generation and uid the API server would.
+func c20Stamp(c *c20Case) {
+	type stored struct {
+		id  int
+		gen int64
+		uid string
+	}
+	cur := map[string]*stored{}
+	uids := 0
+	for i := range c.Events {
+		ev := &c.Events[i]
+		switch ev.Op {
+		case "delete":
+			delete(cur, ev.Name)
+		case "apply":
+			if sp := ev.Spec; sp.FastResync && (sp.NoHooks || sp.Sync == nil || !sp.Sync.URL) {
+				sp.FastResync = false // needs the sync hook url to carry the spec id
+			}
+			o := cur[ev.Name]
+			switch {
+			case o == nil || ev.Replace:
+				uids++
+				o = &stored{id: ev.Spec.ID, gen: 1, uid: fmt.Sprintf("uid-%s-%d", ev.Name, uids)}
+				cur[ev.Name] = o
+			case o.id != ev.Spec.ID:
+				o.id = ev.Spec.ID
+				o.gen++
+			}
+			ev.Gen, ev.UID = o.gen, o.uid
+		}
+	}
 }
 
 // c20Features: what a history contains (for the driver's known-finding matching)
@@ -1298,8 +1441,9 @@ func c20Corpus(flavor string, rng *vh.Rng) []*c20Case {
 		c := g.concretise(flavor, family, letters, names)
 		if fix != nil {
 			fix(c, g)
-			c.Features = c20Features(c)
 		}
+		c20Stamp(c)
+		c.Features = c20Features(c)
 		out = append(out, c)
 	}
 	a := func(n int) []string {
@@ -1405,6 +1549,26 @@ func c20Corpus(flavor string, rng *vh.Rng) []*c20Case {
 	if flavor == "Composite" {
 		add("corpus-stop-in-flight", []string{"V", "C", "V", "G"}, a(4), inflight(1, 3))
 	}
+	// delete + re-create under the same name coalesced into one reconcile: generation 1 again
+	add("corpus-replace", []string{"V", "R", "D"}, a(3), nil)
+	add("corpus-replace", []string{"V", "N", "R", "N", "R", "D"}, a(6), nil)
+	add("corpus-replace", []string{"V", "V", "R", "V", "R"}, a(5), nil)
+	add("corpus-replace", []string{"V", "V", "R", "R", "D", "R"}, []string{"a", "b", "a", "b", "a", "b"}, nil)
+	add("corpus-replace", []string{"I", "R", "V", "R"}, a(4), nil)
+	// controllers whose parent handlers run a resync ticker of their own (1 s), stopped and restarted
+	fast := func(c *c20Case, g *c20Gen) {
+		for i := range c.Events {
+			if s := c.Events[i].Spec; s != nil && c.Events[i].Abs != "N" {
+				s.Kind, s.NoHooks, s.FastResync = "valid", false, true
+				s.Children = []c20Rule{c20Pods}
+				s.Sync = &c20HookCfg{URL: true}
+				s.Finalize, s.Customize = nil, nil
+			}
+		}
+	}
+	add("corpus-fast-resync", []string{"V", "D"}, a(2), fast)
+	add("corpus-fast-resync", []string{"V", "V", "N", "D"}, a(4), fast)
+	add("corpus-fast-resync", []string{"V", "V", "R", "D"}, []string{"a", "b", "a", "b"}, fast)
 	add("corpus-dup-rule", []string{"V", "D"}, a(2), func(c *c20Case, g *c20Gen) {
 		s := c.Events[0].Spec
 		s.Kind, s.Children, s.Customize = "dup-rule", []c20Rule{c20Pods, c20Pods}, nil
@@ -1437,6 +1601,7 @@ func c20Corpus(flavor string, rng *vh.Rng) []*c20Case {
 }
 
 var c20Alphabet = []string{"V", "I", "N", "D"}
+var c20AlphabetR = []string{"V", "I", "N", "D", "R"}
 
 // c20Generate: the hand-written corpus, then (thorough) every sequence up to
 // length 5 over one name or (quick) a seeded sample of the sequences up to
@@ -1454,7 +1619,13 @@ func c20Generate(flavor string, seed uint64, n int, tier string, adv bool) []*c2
 		return g.concretise(flavor, family, letters, names)
 	}
 	if tier == "thorough" {
-		for i, l := range c20AllSequences(c20Alphabet, 5) {
+		seqs := c20AllSequences(c20Alphabet, 5)
+		for _, l := range c20AllSequences(c20AlphabetR, 4) {
+			if strings.Contains(strings.Join(l, ""), "R") {
+				seqs = append(seqs, l)
+			}
+		}
+		for i, l := range seqs {
 			c := one(l, "enum5")
 			if i%4 == 3 {
 				c.Workers = 2
@@ -1462,7 +1633,7 @@ func c20Generate(flavor string, seed uint64, n int, tier string, adv bool) []*c2
 			out = append(out, c)
 		}
 	} else {
-		all := c20AllSequences(c20Alphabet, 4)
+		all := c20AllSequences(c20AlphabetR, 4)
 		// seeded sample without replacement
 		for i := len(all) - 1; i > 0; i-- {
 			j := rng.Intn(i + 1)
@@ -1481,9 +1652,9 @@ func c20Generate(flavor string, seed uint64, n int, tier string, adv bool) []*c2
 		}
 		n -= k
 	}
-	full := []string{"V", "V", "V", "I", "I", "N", "N", "D", "D", "E", "C", "K", "G"}
+	full := []string{"V", "V", "V", "I", "I", "N", "N", "D", "D", "E", "C", "K", "G", "R", "R"}
 	if adv {
-		full = []string{"V", "I", "I", "I", "N", "D", "E", "C", "C", "K", "K", "G"}
+		full = []string{"V", "I", "I", "I", "N", "D", "E", "C", "C", "K", "K", "G", "R", "R", "R"}
 	}
 	for i := 0; i < n; i++ {
 		sub, _ := rng.Fork()
@@ -1592,6 +1763,12 @@ func c20Main(t *testing.T) {
 		}
 		w.Count("family-" + strings.SplitN(c.Family, "-", 3)[0])
 		for _, r := range recs {
+			if r.Event.Replace {
+				w.Count("event-replace")
+			}
+			if r.Event.Spec != nil && r.Event.Spec.FastResync {
+				w.Count("spec-fast-resync")
+			}
 			if r.Event.Blocked {
 				w.Count("event-with-sync-in-flight-requested")
 			}
